@@ -42,7 +42,8 @@ structure FileUse where
 
 def positional (u : FileUse) : Bool :=
   u.methods.all (fun (m, a) => m == "ReadAt" || m == "Stat" || m == "Name" || (m == "Seek" && a == "0, io.SeekEnd")) &&
-  u.passedTo.all (fun c => c == "io.NewSectionReader" || c == "FindDirectory") &&
+  u.passedTo.all (fun c => c == "io.NewSectionReader" || c == "FindDirectory" || c == "zipslicer.FindDirectory" ||
+    c == "signxap.SignatureFrameSize") &&       -- both take an io.ReaderAt
   u.escapes.isEmpty
 
 end Relic.LockSpan
